@@ -38,7 +38,7 @@ _DEFAULTS = dict(Mode="fixed", TEnds={12}, MaxInterior=3, Dts={1, 2, 3, 4, 5}, D
 FIXED_INVS = ("TypeOK", "GridSteps", "OutputForm", "OutputFormIsGrid", "ChunkEq", "Tiling", "AllEmitted", "GridRefinementInit")
 FIXED_PROPS = ("TilingStep", "GridRefinement")
 ADAPT_INVS = ("TypeOK", "Tiling", "MinStep", "MinStepSize", "AllEmitted", "OutputFormA", "AcceptedOnly")
-ADAPT_PROPS = ("AcceptRule", "RetrySmaller", "HalfStepValue", "RejectKeepsState", "TilingStep")
+ADAPT_PROPS = ("AcceptRule", "RetrySmaller", "HalfStepValue", "RejectKeepsState", "TilingStep", "AdaptiveRefinement")
 
 
 def loop_cfg(spec="Spec", invariants=(), properties=(), **consts):
